@@ -21,4 +21,5 @@ let () =
   | "hir" -> Hirdrv.run ()
   | "emit" -> Emitdrv.run ()
   | "macro" -> Macrodrv.run ()
+  | "request" -> Reqdrv.run ()
   | m -> prerr_endline ("unknown mode " ^ m); exit 2
